@@ -28,6 +28,45 @@ def run_check(ctx):
     # serialised points exchanged between the engines: valid, invalid, flag patterns
     for i in range(6 * scale):
         b = rng.bytes(48 if i % 2 == 0 else 96); lines.append(('bls.g1.roundtrip %s' if i % 2 == 0 else 'bls.g2.roundtrip %s') % b.hex())
+    # G1 curve points OUTSIDE the prime-order subgroup, serialised: the low-order points (0, ±1), (-1, 0) and cofactor-torsion points [r]P
+    # (P a curve point with x = 2, 3, ...): a validating deserialiser must treat them as the reference engine does
+    from .. import fieldcorr as _fc
+    P_ = _fc.MOD['fp']; R_ = _fc.MOD['fr']
+    def _add(A, B):
+        if A is None: return B
+        if B is None: return A
+        (x1, y1), (x2, y2) = A, B
+        if x1 == x2 and (y1 + y2) % P_ == 0: return None
+        l = (3 * x1 * x1 * pow(2 * y1, -1, P_)) % P_ if A == B else ((y2 - y1) * pow(x2 - x1, -1, P_)) % P_
+        x3 = (l * l - x1 - x2) % P_; return (x3, (l * (x1 - x3) - y1) % P_)
+    def _mul(k, A):
+        acc = None
+        while k:
+            if k & 1: acc = _add(acc, A)
+            A = _add(A, A); k >>= 1
+        return acc
+    def _ser(pt):
+        x, y = pt; b = bytearray(x.to_bytes(48, 'little'))
+        if y > (P_ - y) % P_: b[47] |= 0x80
+        return bytes(b).hex()
+    outside = [(0, 1), (0, P_ - 1), (P_ - 1, 0)]
+    xx = 2
+    while len(outside) < 3 + 2 + scale and xx < 200:
+        y2 = (xx ** 3 + 1) % P_
+        if pow(y2, (P_ - 1) // 2, P_) == 1:
+            # Tonelli-Shanks (p - 1 = 2^46 * t, 15 generates the multiplicative group)
+            S_ = 0; t_ = P_ - 1
+            while t_ % 2 == 0: t_ //= 2; S_ += 1
+            c_ = pow(15, t_, P_); y = pow(y2, (t_ + 1) // 2, P_); b_ = pow(y2, t_, P_); m_ = S_
+            while b_ != 1:
+                i_ = 0; w_ = b_
+                while w_ != 1: w_ = w_ * w_ % P_; i_ += 1
+                g_ = pow(c_, 1 << (m_ - i_ - 1), P_); y = y * g_ % P_; c_ = g_ * g_ % P_; b_ = b_ * c_ % P_; m_ = i_
+            if y * y % P_ == y2:
+                t = _mul(R_, (xx, y))
+                if t is not None: outside.append(t)
+        xx += 1
+    for pt in outside: lines.append('bls.g1.roundtrip ' + _ser(pt))
     lines += ['bls.g1.roundtrip ' + '00' * 47 + '40', 'bls.g1.roundtrip ' + 'ff' * 48, 'bls.g1.roundtrip 00', 'bls.g2.roundtrip ' + '00' * 95 + '40']
     try:
         out = harness.run_script('ark', lines)
